@@ -27,17 +27,18 @@ def _plan(draw, max_rows):
     big = draw(st.integers(0, 11)) == 0
     if big:
         # > 16 rows, one key with few distinct values and no missing cell: where an unstable sort shows
-        n = draw(st.integers(17, 40))
+        n = draw(st.integers(17, 40)) if max_rows < 40 or draw(st.booleans()) else draw(st.sampled_from(gen.BIG_SIZES))
         nk = 1
     cols, keys = [], []
     for j in range(nk):
         kind = draw(st.sampled_from(KEY_KINDS))
         mode = "tight" if big else draw(st.sampled_from(["tight", "tight", "tight", "pool", "wide"]))
-        cols.append({"name": f"k{j}", "kind": kind, "vals": draw(gen.values(kind, n, mode=mode, na="none" if big else None))})
+        vals = draw(gen.big_values(kind, n)) if n > 40 else draw(gen.values(kind, n, mode=mode, na="none" if big else None))
+        cols.append({"name": f"k{j}", "kind": kind, "vals": vals})
         keys.append([f"k{j}", draw(st.sampled_from([1, -1]))])
     for j in range(draw(st.integers(0, 2))):
         kind = draw(st.sampled_from(PAY_KINDS))
-        cols.append({"name": f"p{j}", "kind": kind, "vals": draw(gen.values(kind, n))})
+        cols.append({"name": f"p{j}", "kind": kind, "vals": draw(gen.big_values(kind, n, na="asis")) if n > 40 else draw(gen.values(kind, n))})
     order = draw(st.permutations(range(len(cols))))
     keys = draw(st.permutations(keys))
     plan = {"frame": {"n": n, "cols": [cols[i] for i in order]}, "keys": [list(k) for k in keys]}
